@@ -80,15 +80,15 @@ def tasks_for(tier):
         (dict(levy='space-time', size=(2,), cache_size=1, entropy=77), 'twin-objects', 2, mp, to),
         (dict(levy='davie', size=(1, 2), cache_size=45, entropy=5), 'twin-objects', 1, mp, to),
         (dict(levy='none', size=(), cache_size=0, entropy=123456789), 'twin-objects', 2, mp, to),
-        (dict(levy='none', size=(), tol=0.1, halfway=True), 'dyadic', 1, mp, to),
-        (dict(levy='davie', size=(1, 2), tol=0.1, halfway=True), 'dyadic', 1, mp, to),
-        (dict(wrapper='tree', levy='none', size=(1,), tol=0.1), 'dyadic', 1, mp, to),
-        (dict(levy='space-time', size=(2,), tol=0.1, halfway=True, cache_size=1), 'dyadic', 1, mp, to),
+        (dict(levy='none', size=(), tol=0.1, halfway=True, t1=Fraction(1, 2)), 'dyadic', 1, mp, to),
+        (dict(levy='davie', size=(1, 2), tol=0.1, halfway=True, t1=Fraction(1, 2)), 'dyadic', 1, mp, to),
+        (dict(wrapper='tree', levy='none', size=(1,), tol=0.1, t1=Fraction(1, 2)), 'dyadic', 1, mp, to),
+        (dict(levy='space-time', size=(2,), tol=0.1, halfway=True, cache_size=1, t1=Fraction(1, 2)), 'dyadic', 1, mp, to),
     ]
     if not q:
         T += [
-            (dict(levy='foster', size=(1, 2), tol=0.1, halfway=True), 'dyadic', 2, mp, to),
-            (dict(levy='space-time', size=(1,), tol=0.1, halfway=True, cache_size=0), 'dyadic', 2, mp, to),
+            (dict(levy='foster', size=(1, 2), tol=0.1, halfway=True, t1=Fraction(1, 2)), 'dyadic', 2, mp, to),
+            (dict(levy='space-time', size=(1,), tol=0.1, halfway=True, cache_size=0, t1=Fraction(1, 2)), 'dyadic', 2, mp, to),
             (dict(levy='foster', size=(2, 2), cache_size=2, entropy=9), 'twin-objects', 2, mp, to),
             (dict(levy='none', size=(1,), tol=0.01, halfway=True, t1=Fraction(1, 4)), 'dyadic', 1, mp, to),
         ]
